@@ -295,6 +295,16 @@ impl GenParams {
                 p_unknown: 0.08,
                 ..b
             },
+            "tiny" => GenParams {
+                pkgs: (2, 3),
+                cands: (1, 2),
+                reqs: (0, 2),
+                root_reqs: (1, 2),
+                p_union: 0.25,
+                p_root_union: 0.25,
+                p_cons: 0.3,
+                ..b
+            },
             "small" => GenParams {
                 pkgs: (2, 4),
                 cands: (1, 3),
